@@ -96,10 +96,10 @@ CHECKS = {
     "C12": {
         "level": EXPL,
         "technique": "runtime monitoring of execute(flags) histories: recorder kernel (which operator, which level), byte snapshots of the tree between calls, bit-exact polynomial kernel",
-        "claim": "On every explored tree: each single flag called only its operator and wrote only its output kind; every ordered partition of the flags into stages respecting the dependency order (all 2^4 chain cuts x every placement of P2P, plus the documented 3-stage split) ended bit-identical to one full run; for every upper level 0..height no operator ran above it and the result equalled the model evaluated with that level. The same two families (upper levels 0..height+1, staged histories) held on TbfOpenmpAlgorithm, TbfAlgorithmTsm and TbfOpenmpAlgorithmTsm (the OpenMP ones under shim schedules): events == model with that level, bit-identical to the sequential executor.",
+        "claim": "On every explored tree: each single flag called only its operator and wrote only its output kind; every ordered partition of the flags into stages respecting the dependency order (all 2^4 chain cuts x every placement of P2P, plus the documented 3-stage split) ended bit-identical to one full run; for every upper level 0..height no operator ran above it and the result equalled the model evaluated with that level. The same three families (single flags, upper levels 0..height+1, staged histories) held on TbfOpenmpAlgorithm, TbfAlgorithmTsm and TbfOpenmpAlgorithmTsm (the OpenMP ones under shim schedules): events == model with that level, bit-identical to the sequential executor.",
         "note": "Trusted: recorder, snapshots by (level,coord) and by original index, model. Specx/StarPU executors are covered for the default level only (C03/C09 thorough).",
         "jobs": [{"bin": "h_fmm", "mode": "c12"}, {"bin": "h_sched", "mode": "c12"}],
-        "rule": "cases cycle through three history families on random trees: single flags (6 runs), staged histories (quick 24 sampled incl. the documented split; thorough all %d), upper levels 0..height (height+1 runs with P-rec + P-set model); h_sched adds four families: upper levels 0..height+1 on the OpenMP executor, on both target/source executors, staged histories on the OpenMP executor and on both target/source executors. non-trivial = tree with >= 2 particles / far or near interactions / height >= 3 respectively; distinct = family + input signature.",
+        "rule": "cases cycle through three history families on random trees: single flags (6 runs), staged histories (quick 24 sampled incl. the documented split; thorough all %d), upper levels 0..height (height+1 runs with P-rec + P-set model); h_sched adds six families: upper levels 0..height+1 on the OpenMP executor, on both target/source executors, staged histories on the OpenMP executor and on both target/source executors, every single flag alone on the OpenMP executor and on both target/source executors (events == model masked by the flag, only the flag's output kind changes). non-trivial = tree with >= 2 particles / far or near interactions / height >= 3 respectively; distinct = family + input signature.",
         "require_events": ["single-flag-runs", "staged-histories", "upper-level-runs"],
         "assumptions": [],
     },
